@@ -25,7 +25,7 @@ na = [{"property_id": p, "reason": PROPS.get(p, {}).get("na_reason", "check not 
       for p in ids if p not in PROPS]
 m = {
     "version": 1,
-    "setup_cmd": "cd /verif && (cd coq && coq_makefile -f _CoqProject -o Makefile && make -j16) && cp /repo/go.sum harness/go.sum && mkdir -p work/bin && (cd harness && GOFLAGS=-mod=mod GOPROXY=off GOSUMDB=off GOTOOLCHAIN=local go build -o ../work/bin/harness .)",
+    "setup_cmd": "cd /verif && (cd coq && coq_makefile -f _CoqProject -o Makefile && make -j16) && cp /repo/go.sum harness/go.sum && mkdir -p work/bin && (cat harness/go.sum.extra >> harness/go.sum && cd harness && GOFLAGS=-mod=mod GOPROXY=off GOSUMDB=off GOTOOLCHAIN=local go build -o ../work/bin/harness .)",
     "hooks": {
         "guard": "verif",
         "enable": "no source hooks are needed: the harness (module k3l.io/go-eigentrust/verifharness with replace => /repo) drives the exported API, the HTTP router, the gRPC handlers, the CLI binary and /proc/self/maps; the build tag 'verif' is reserved and unused",
